@@ -22,9 +22,12 @@ Exits non-zero with a message when an item does not have the expected shape.
 import re, sys, os
 
 
+sys.path.insert(0, os.path.dirname(os.path.abspath(__file__)))
+from _exec import ShapeMismatch, dump  # noqa: E402
+
+
 def die(msg):
-    print(f"gen/dis.py: shape assertion failed: {msg}")
-    sys.exit(1)
+    raise ShapeMismatch(msg)
 
 
 def strip_comments(src):
@@ -204,9 +207,37 @@ def main():
     repo, outdir = sys.argv[1], sys.argv[2]
     dict_rs = open(os.path.join(repo, "src/haystack/val/dict.rs"), encoding="utf-8").read()
     macro_rs = open(os.path.join(repo, "src/haystack/val/dis_macro.rs"), encoding="utf-8").read()
-    chain = chain_of(dict_rs)
-    rx, head1, tail1, min1, head2, tail2, min2, stop, min3 = regex_of(macro_rs)
     code = {"plain": 0, "macro": 1, "key": 2, "ref": 3}
+    name_of = {v: k for k, v in code.items()}
+    d = None
+    try:
+        chain = chain_of(dict_rs)
+    except ShapeMismatch as e:
+        d = dump("c20")
+        if d is None:
+            print(f"gen/dis.py: shape assertion failed: {e}")
+            sys.exit(1)
+        print(f"FALLBACK dis: dict_to_dis no longer has the parsed shape ({e}); the precedence chain was measured on the real "
+              "function (pairwise dominance of the eight tags, treatment of Str / Ref / other values per tag, thirteen near-miss names) by `hsverif dump c20`")
+        code.update({"shape9": 9}); name_of[9] = "shape9"
+        chain = [(t, name_of.get(c, "shape9")) for t, c in d["chain"]]
+    try:
+        rx, head1, tail1, min1, head2, tail2, min2, stop, min3 = regex_of(macro_rs)
+        # canonical form (the same whichever source the table comes from): ranges in ascending order
+        head1, tail1, head2, tail2 = sorted(head1), sorted(tail1), sorted(head2), sorted(tail2)
+    except ShapeMismatch as e:
+        d = d or dump("c20")
+        if d is None:
+            print(f"gen/dis.py: shape assertion failed: {e}")
+            sys.exit(1)
+        print(f"FALLBACK dis: dis_macro.rs no longer has the parsed shape ({e}); the three macro forms were measured on the real "
+              "function (every Unicode scalar value in head, tail and key position; minimum lengths; the closing character) by `hsverif dump c20`")
+        rx = "(measured by execution)"
+        head1, tail1, head2, tail2 = ([tuple(r) for r in d[k]] for k in ("head1", "tail1", "head2", "tail2"))
+        min1, min2, stop, min3 = d["tailMin1"], d["tailMin2"], d["keyStop"], d["keyMin"]
+        if min(min1, min2, min3) < 0:
+            print("gen/dis.py: execution found no `$name` / `${name}` / `$<key>` form at all")
+            sys.exit(1)
     lines = [
         "/- GENERATED by gen/dis.py from /repo/src/haystack/val/{dict,dis_macro}.rs — do not edit. -/",
         "namespace Hs.Gen.Dis",
